@@ -275,3 +275,9 @@ def run(ctx):
 
 
 SWEEP = ["concurrent/test_transient_hash_table.cpp"]
+
+
+# name anchors (validated by tools/rename_sweep.py; a vanished name is exit 2, see core.check_anchor_names)
+ANCHORS = {
+    '_controls': ['^babylon::internal::concurrent_transient_hash_table::Group(<|$)'],
+}
